@@ -32,7 +32,8 @@ inductive Value where
   | dict (entries : List (Value × Value))
   | tup (xs : List Value)
   | struct (xs : List Value)                     -- field values in the order of the type's fields
-  | nd (shape : List Nat) (data : List Value)    -- elements in C (row-major) order
+  | nd (shape : List Nat) (data : List Value) (fortran : Bool)   -- elements in C (row-major, logical) order; `fortran`: the
+                                                                  -- numpy array is laid out column-major in memory
 deriving Repr, Inhabited
 
 /-- finite binary32 pattern: below 2^32 with an exponent field that is not all ones -/
@@ -71,7 +72,7 @@ def HasType : HType → Value → Prop
   | .dict k v, .dict es => ∀ p ∈ es, HasType k p.1 ∧ HasType v p.2
   | .struct fs, .struct xs => HasTypeFields fs xs
   | .tuple ts, .tup xs => HasTypeTuple ts xs
-  | .ndarray t n, .nd shape data =>
+  | .ndarray t n, .nd shape data _ =>
       shape.length = n ∧ data.length = shape.foldl (· * ·) 1 ∧ ∀ x ∈ data, x ≠ .na ∧ HasType t x
   | _, _ => False
 def HasTypeFields : List (Str × HType) → List Value → Prop
@@ -82,6 +83,45 @@ def HasTypeTuple : List HType → List Value → Prop
   | [], [] => True
   | t :: ts, x :: xs => HasType t x ∧ HasTypeTuple ts xs
   | _, _ => False
+end
+
+mutual
+/-- the same value with every numpy array in C memory order (what every decoder builds) -/
+def cOrder : Value → Value
+  | .interval s e is ie => .interval (cOrder s) (cOrder e) is ie
+  | .arr xs => .arr (cOrderList xs)
+  | .set xs => .set (cOrderList xs)
+  | .dict es => .dict (cOrderEntries es)
+  | .tup xs => .tup (cOrderList xs)
+  | .struct xs => .struct (cOrderList xs)
+  | .nd shape data _ => .nd shape (cOrderList data) false
+  | v => v
+def cOrderList : List Value → List Value
+  | [] => []
+  | x :: xs => cOrder x :: cOrderList xs
+def cOrderEntries : List (Value × Value) → List (Value × Value)
+  | [] => []
+  | (a, b) :: es => (cOrder a, cOrder b) :: cOrderEntries es
+end
+
+mutual
+/-- the same value with every numpy array flagged column-major in memory (what `_convert_from_encoding` builds:
+`np.ndarray(…, order="F")`) -/
+def fOrder : Value → Value
+  | .interval s e is ie => .interval (fOrder s) (fOrder e) is ie
+  | .arr xs => .arr (fOrderList xs)
+  | .set xs => .set (fOrderList xs)
+  | .dict es => .dict (fOrderEntries es)
+  | .tup xs => .tup (fOrderList xs)
+  | .struct xs => .struct (fOrderList xs)
+  | .nd shape data _ => .nd shape (fOrderList data) true
+  | v => v
+def fOrderList : List Value → List Value
+  | [] => []
+  | x :: xs => fOrder x :: fOrderList xs
+def fOrderEntries : List (Value × Value) → List (Value × Value)
+  | [] => []
+  | (a, b) :: es => (fOrder a, fOrder b) :: fOrderEntries es
 end
 
 /-- `mapM` for `Option` with plain equations -/
